@@ -486,3 +486,295 @@ def check_C10(tier, replay=None):
 
 
 CHECKS["C10"] = check_C10
+
+
+# ============================================================================================= C19
+def _snap_pd(df):
+    return {"copy": df.copy(deep=True), "cols": list(df.columns), "dtypes": [str(t) for t in df.dtypes],
+            "index": df.index.copy(deep=True)}
+
+
+def _same_pd(df, s):
+    import pandas
+    if list(df.columns) != s["cols"]:
+        return "columns changed: %s -> %s" % (s["cols"], list(df.columns))
+    if [str(t) for t in df.dtypes] != s["dtypes"]:
+        return "dtypes changed: %s -> %s" % (s["dtypes"], [str(t) for t in df.dtypes])
+    if not df.index.equals(s["index"]) or type(df.index) is not type(s["index"]) or str(df.index.dtype) != str(s["index"].dtype):
+        return "index changed: %s -> %s" % (list(s["index"]), list(df.index))
+    if not df.equals(s["copy"]):
+        return "values changed"
+    return None
+
+
+@safe
+def w_c19(args):
+    case, _ = args
+    if not all(h["ok"] for h in case["hist"]):
+        return {"status": "skip"}
+    import polars
+    be = relreplay._backends()
+    built = relcase.build(case)
+    ops = built.final
+    ordered = case["hist"][-1]["ordered"]
+    stats = collections.Counter()
+    single = len(ops.get_tables()) == 1 and "t1" in ops.get_tables()
+    for variant in (None, "stridx", "perm_keepidx"):
+        frames = be.frames(case, variant=variant)
+        snaps = {t: _snap_pd(f) for t, f in frames.items()}
+        calls = [("eval", lambda: ops.eval(frames))]
+        if single:
+            calls.append(("transform", lambda: ops.transform(frames["t1"])))
+            calls.append((">>", lambda: frames["t1"] >> ops))
+            calls.append(("act_on", lambda: ops.act_on(frames["t1"])))
+        results = []
+        for name, f in calls:
+            try:
+                res = f()
+            except Exception as ex:  # noqa: BLE001
+                stats["raised:" + name] += 1
+                res = None
+            for t, fr in frames.items():
+                why = _same_pd(fr, snaps[t])
+                if why:
+                    return {"status": "violation", "nontrivial": True, "tag": "mutated:" + name,
+                            "detail": {"call": name, "variant": variant, "table": t, "why": why, "pipeline": str(ops)}}
+            if res is not None:
+                for t, fr in frames.items():
+                    if res is fr:
+                        return {"status": "violation", "nontrivial": True, "tag": "aliased:" + name,
+                                "detail": {"call": name, "variant": variant, "table": t, "why": "the result IS the caller's frame"}}
+                results.append((name, abs_table(res)))
+            stats["calls"] += 1
+        for (n1, r1), (n2, r2) in zip(results, results[1:]):
+            ok, why = same_table(r2, r1, ordered=ordered)
+            if not ok:
+                return {"status": "violation", "nontrivial": True, "tag": "repeat",
+                        "detail": {"first": n1, "second": n2, "variant": variant, "why": why, "r1": r1, "r2": r2, "pipeline": str(ops)}}
+        # the result must not share memory with the inputs: writing to it must leave them alone
+        if results:
+            try:
+                res = ops.eval(frames)
+                for c in list(res.columns):
+                    try:
+                        res[c] = None
+                    except Exception:  # noqa: BLE001
+                        pass
+                for t, fr in frames.items():
+                    why = _same_pd(fr, snaps[t])
+                    if why:
+                        return {"status": "violation", "nontrivial": True, "tag": "shared-memory",
+                                "detail": {"variant": variant, "table": t, "why": "overwriting the RESULT changed the input: " + why}}
+            except Exception:  # noqa: BLE001
+                pass
+    # Polars (eager): frames are immutable values, but the executor must not hand back a modified input either
+    pfr = be.polars_frames(case)
+    psn = {t: f.clone() for t, f in pfr.items()}
+    for rep in range(2):
+        try:
+            r = ops.eval(pfr)
+        except Exception:  # noqa: BLE001
+            stats["polars_raised"] += 1
+            break
+        for t, f in pfr.items():
+            if not f.equals(psn[t]) or f.schema != psn[t].schema or f.columns != psn[t].columns:
+                return {"status": "violation", "nontrivial": True, "tag": "polars-mutated",
+                        "detail": {"table": t, "why": "polars input changed", "pipeline": str(ops)}}
+    return {"status": "ok", "nontrivial": nt_rows(case, 1) and len(case["prog"]) >= 2, "stats": dict(stats)}
+
+
+PLAN_C19 = {
+    "mc": [dict(what="InputsFrozen (no step of the machine changes the caller's tables) + laws, one table, <= 1 row, every unary step",
+                fams=UNARY, rows=1, steps=1, level=1, properties=["InputsFrozen"], **T1)],
+    "emit": [dict(what="all 1-step pipelines over all tables with <= 1 row", fams=UNARY, rows=1, steps=1, level=1, **T1),
+             dict(what="join/concat of two tables, <= 1 row (sampled)", fams=["stack", "binary"], rows=1, steps=2, level=2, one_in=10, **T12)],
+    "sim": dict(what="random pipelines of 4 calls over 2 tables of <= 3 rows", num=(1200, 12000), rows=3, steps=4, **SIMT),
+    "rule": "behaviours of Exec.tla; each pipeline is evaluated through eval / transform / >> / act_on on Pandas frames with default, "
+            "text and shuffled-integer indexes and on Polars frames; before/after snapshots of values, dtypes, columns and index; "
+            "consecutive evaluations compared; the result is overwritten to detect shared memory; "
+            "non-trivial = some input has rows and the pipeline has at least two calls",
+    "limit": (3000, 30000),
+    "assumptions": ["ex() is the same code path as eval() on the frames stored in the description (view_representations.ex) and is "
+                    "exercised through eval", "pipelines with random-number methods are not generated"],
+}
+
+
+def check_C19(tier, replay=None):
+    return generic_plan("C19", tier, PLAN_C19, w_c19, replay)
+
+
+CHECKS["C19"] = check_C19
+
+
+# ============================================================================================= C15
+_INTERNAL = None
+
+
+def internal_names():
+    """names the executors and the SQL generator use for their own purposes, read from /repo's sources at check time"""
+    global _INTERNAL
+    if _INTERNAL is not None:
+        return _INTERNAL
+    cols, suffixes, tabs = set(), set(), set()
+    for fn in ("pandas_base.py", "polars_model.py", "sql_model.py", "near_sql.py", "SQLite.py", "view_representations.py"):
+        try:
+            src = open(os.path.join(common.REPO, "data_algebra", fn)).read()
+        except OSError:
+            continue
+        for m in re.finditer(r"""["']([A-Za-z_][A-Za-z0-9_]*)["']""", src):
+            s = m.group(1)
+            low = s.lower()
+            if ("temp" in low or "tmp" in low or low.startswith("_da_") or low.startswith("data_algebra_") or low.startswith("_data_")
+                    or low.startswith("da_")):
+                if s.startswith("_") and ("tmp" in low or "temp" in low) and not low.startswith("_da_") and not low.startswith("_data_"):
+                    suffixes.add(s)
+                else:
+                    cols.add(s)
+        for m in re.finditer(r"""view_name\s*=\s*f?["']([A-Za-z_]+)""", src):
+            tabs.add(m.group(1))
+        for m in re.finditer(r"""["']([a-z_]+_)\{""", src):
+            tabs.add(m.group(1).rstrip("_"))
+    tabs |= {"extend", "project", "select_rows", "select_columns", "drop_columns", "order_rows", "rename_columns", "natural_join",
+             "concat_rows", "convert_records", "table_reference", "join_source_left", "join_source_right", "concat_rows_a", "concat_rows_b"}
+    _INTERNAL = {"cols": sorted(cols), "suffixes": sorted(suffixes), "tabs": sorted(tabs)}
+    return _INTERNAL
+
+
+def namings_for(case, k, rng):
+    """k injective renamings of the case's tables and columns that hit internal names"""
+    pool = internal_names()
+    allcols = sorted({c for tb in case["inp"].values() for c in tb["cols"]} |
+                     {c for h in case["hist"] for c in h["top"]["cols"]} | _step_cols(case["prog"]))
+    tabs = sorted(case["inp"])
+    out = [relcase.Naming(cols={c: "u_" + c for c in allcols}, tabs={t: "tab_" + t for t in tabs})]   # ordinary names only
+    out[0].injected = None
+    for _ in range(k):
+        cm = {c: "u_" + c for c in allcols}
+        tm = {t: "tab_" + t for t in tabs}
+        mode = rng.randrange(3)
+        if mode == 0 and pool["cols"]:
+            inj = rng.choice(pool["cols"])
+            cm[rng.choice(allcols)] = inj
+        elif mode == 1 and pool["suffixes"] and len(allcols) >= 2:
+            a, b = rng.sample(allcols, 2)
+            inj = cm[a] + rng.choice(pool["suffixes"])
+            cm[b] = inj
+        else:
+            inj = "%s_%d" % (rng.choice(pool["tabs"]).rstrip("_"), rng.randrange(0, 4))
+            tm[rng.choice(tabs)] = inj
+        if len(set(cm.values())) != len(cm) or len(set(tm.values())) != len(tm):
+            continue
+        nm = relcase.Naming(cols=cm, tabs=tm)
+        nm.injected = inj
+        out.append(nm)
+    return out
+
+
+def _step_cols(prog):
+    s = set()
+
+    def walk(x):
+        if isinstance(x, list):
+            for y in x:
+                walk(y)
+        elif isinstance(x, str):
+            s.add(x)
+    for st in prog:
+        walk(st[1:])
+    keep = set()
+    for x in s:
+        if re.fullmatch(r"[a-z][a-z0-9]*", x) and x not in ("b", "u", "c", "k", "t", "ks", "in", "if_else", "where", "and", "or",
+                                                               "not", "neg", "abs", "sign", "is_null", "is_bad", "maximum", "minimum",
+                                                               "fmax", "fmin", "coalesce", "sum", "max", "min", "count", "size", "shift",
+                                                               "cumsum", "cummax", "cummin", "nunique", "t1", "t2", "nonagg", "complex",
+                                                               "argexpr"):
+            keep.add(x)
+    return keep
+
+
+def c15_classify(backend, nm, err, case):
+    """known scratch-name captures (D17), identified by backend and the internal name involved"""
+    inj = getattr(nm, "injected", None)
+    if inj is None:
+        return None
+    for fid, bk, pat in C15_KNOWN:
+        if backend in bk and re.fullmatch(pat, inj):
+            return fid
+    return None
+
+
+C15_KNOWN = []      # filled from known_findings.json (kind = "capture")
+
+
+@safe
+def w_c15(args):
+    case, _ = args
+    if not all(h["ok"] for h in case["hist"]):
+        return {"status": "skip"}
+    be = relreplay._backends()
+    rng = random.Random(relreplay.case_hash(case))
+    ordered = case["hist"][-1]["ordered"]
+    base = {}
+    built0 = relcase.build(case)
+    for b in ("pandas", "sqlite", "polars"):
+        try:
+            base[b] = abs_table(relreplay.eval_backend(be, b, built0.final, case, relcase.IDENT, [False]))
+        except Exception:  # noqa: BLE001
+            pass
+    stats = collections.Counter()
+    known = None
+    for nm in namings_for(case, 3, rng):
+        try:
+            built = relcase.build(case, nm)
+        except Exception as ex:  # noqa: BLE001
+            return {"status": "crash", "detail": "build under naming failed: %s" % ex}
+        if built.accepted != built0.accepted:
+            return {"status": "violation", "nontrivial": True, "tag": "acceptance-under-renaming",
+                    "detail": {"naming": [nm.cols, nm.tabs], "accepted": built.accepted, "errors": built.errors}}
+        for b in base:
+            loaded = [False]
+            try:
+                got = abs_table(relreplay.eval_backend(be, b, built.final, case, nm, loaded), nm)
+                ok, why = same_table(got, base[b], ordered=ordered)
+            except Exception as ex:  # noqa: BLE001
+                ok, why, got = False, "raised %s: %s" % (type(ex).__name__, str(ex)[:300]), None
+            stats["evaluations"] += 1
+            if not ok:
+                fid = c15_classify(b, nm, why, case)
+                if fid:
+                    known = fid
+                    stats["KF:" + fid] += 1
+                    continue
+                return {"status": "violation", "nontrivial": True, "tag": "%s" % b,
+                        "detail": {"backend": b, "naming": [nm.cols, nm.tabs], "injected": getattr(nm, "injected", None),
+                                   "why": why, "got": got, "base": base[b],
+                                   "pipeline": str(built.final)}}
+    if known:
+        return {"status": "known", "id": known, "nontrivial": True, "stats": dict(stats)}
+    return {"status": "ok", "nontrivial": len(base) > 0 and nt_rows(case, 1), "stats": dict(stats)}
+
+
+PLAN_C15 = {
+    "mc": [dict(what="laws of the reference (names never occur in the semantics except as keys), one table, <= 1 row", fams=UNARY, rows=1,
+                steps=1, level=1, **T1)],
+    "emit": [dict(what="all 1-step pipelines over all tables with <= 1 row", fams=UNARY, rows=1, steps=1, level=1, **T1),
+             dict(what="join/concat of two tables, <= 1 row (sampled)", fams=["stack", "binary"], rows=1, steps=2, level=2, one_in=6, **T12)],
+    "sim": dict(what="random pipelines of 3 calls over 2 tables of <= 3 rows", num=(1200, 12000), rows=3, steps=3, **SIMT),
+    "rule": "behaviours of Exec.tla; each is rebuilt under 3 injective renamings of all tables and columns drawn from the names the "
+            "executors and the SQL generator use internally (read from /repo's sources at check time: scratch columns, join "
+            "suffixes, generated view / alias names) and must give, after renaming back, the result of the unrenamed pipeline on "
+            "the same backend (Pandas, SQLite, Polars); non-trivial = some input has rows",
+    "limit": (3000, 30000),
+    "assumptions": ["each backend is compared with itself under the identity naming, so executor deviations cancel",
+                    "names containing the identifier quote character are outside the property"],
+}
+
+
+def check_C15(tier, replay=None):
+    global C15_KNOWN
+    C15_KNOWN = [(f["id"], f["backend"] if isinstance(f["backend"], list) else [f["backend"]], f["name_pattern"])
+                 for f in common.load_findings().get("findings", []) if f.get("kind") == "capture"]
+    return generic_plan("C15", tier, PLAN_C15, w_c15, replay)
+
+
+CHECKS["C15"] = check_C15
